@@ -517,6 +517,9 @@ func init() {
 			fr := &RuleResult{Rule: "FRESH"}
 			freshResult(ctl, fr, ctl.Fn("effctl.BadFresh"), 0, nil, nil, "does not alias the caller's slices")
 			freshResult(ctl, fr, ctl.Fn("effctl.GoodFresh"), 0, nil, nil, "does not alias the caller's slices")
+			for _, n := range []string{"GoodCopy", "BadCopyOneField", "BadCopyReadFirst"} {
+				freshResult(ctl, fr, ctl.Fn("(*effctl.D2)."+n), 0, nil, nil, "does not alias the receiver's slices")
+			}
 			all := func(string) bool { return true }
 			return []*RuleResult{fr, ruleLiteral(ctl), ruleTri(ctl, all, "TRI"), ruleDegSync(ctl, all), ruleCounts(ctl, all), ruleIrreflexive(ctl, "graph")}
 		},
